@@ -220,6 +220,16 @@ def check(pid, tier, seed):
             ok2, failed2, log2, _ = lake_build(list(getattr(prop, "DRIVERS", [])))
             if not ok2:
                 raise Infra("driver does not build: %s\n%s" % (failed2, log2[-1500:]))
+        # non-vacuity examples live in their own modules (Props/CxxExamples.lean): they evaluate concrete
+        # instances, many over the regenerated tables, so a changed table value may stop them from evaluating as
+        # recorded without touching a theorem; that is recorded, it is neither a proof obligation nor a verdict
+        examples_note = None
+        ex_mods = [m + "Examples" for m in prop.LEAN_MODULES
+                   if os.path.exists(os.path.join(LEAN_DIR, (m + "Examples").replace(".", "/") + ".lean"))]
+        if ex_mods:
+            ok_ex, failed_ex, _log_ex, _ = lake_build(ex_mods)
+            examples_note = dict(modules=ex_mods, build_ok=ok_ex,
+                                 failed=[m for m in failed_ex if m.endswith("Examples")])
         obligations, discharged, problems = [], [], []
         adt = 0.0
         if ok:
@@ -240,6 +250,8 @@ def check(pid, tier, seed):
     import fingerprints
     moved = fingerprints.changed(pid)
     ctx = Ctx(tier, seed, data)
+    if examples_note is not None:
+        ctx.notes["non_vacuity_examples"] = examples_note
     if moved:
         ctx.notes["source_changed_since_fingerprint"] = moved
     if hasattr(prop, "setup"):
